@@ -88,6 +88,20 @@ pub(crate) fn value_of_correct_type(
     arg_value: &Node<ast::Value>,
     var_defs: &[Node<ast::VariableDefinition>],
 ) {
+    value_at_location_of_correct_type(diagnostics, schema, ty, None, arg_value, var_defs)
+}
+
+/// `nested_location_has_default`: `None` for a value given directly for an argument or variable
+/// (a variable there is checked by `validate_variable_usage`);
+/// for a list item or input object field, whether that location has a default value.
+fn value_at_location_of_correct_type(
+    diagnostics: &mut DiagnosticList,
+    schema: &crate::Schema,
+    ty: &Node<ast::Type>,
+    nested_location_has_default: Option<bool>,
+    arg_value: &Node<ast::Value>,
+    var_defs: &[Node<ast::VariableDefinition>],
+) {
     let Some(type_definition) = schema.types.get(ty.inner_named_type()) else {
         return;
     };
@@ -191,9 +205,24 @@ pub(crate) fn value_of_correct_type(
                     | schema::ExtendedType::InputObject(_) => {
                         // we don't have the actual variable values here, so just
                         // compare if two Types are the same
-                        // TODO(@goto-bus-stop) This should use the is_assignable_to check
                         if var_def.ty.inner_named_type() != ty.inner_named_type() {
                             unsupported_type(diagnostics, arg_value, ty);
+                        } else if let Some(has_location_default) = nested_location_has_default {
+                            // A variable in a list item or input object field:
+                            // All Variable Usages Are Allowed.
+                            // (The shape of a custom scalar's literal is not known.)
+                            let custom_scalar = matches!(
+                                type_definition,
+                                schema::ExtendedType::Scalar(scalar) if !scalar.is_built_in()
+                            );
+                            if !custom_scalar
+                                && !super::variable::is_variable_usage_allowed_at(
+                                var_def,
+                                ty,
+                                has_location_default,
+                            ) {
+                                unsupported_type(diagnostics, arg_value, ty);
+                            }
                         }
                     }
                     _ => unsupported_type(diagnostics, arg_value, ty),
@@ -243,7 +272,14 @@ pub(crate) fn value_of_correct_type(
                 let item_type = ty.same_location(ty.item_type().clone());
                 if type_definition.is_input_type() {
                     for v in li {
-                        value_of_correct_type(diagnostics, schema, &item_type, v, var_defs);
+                        value_at_location_of_correct_type(
+                            diagnostics,
+                            schema,
+                            &item_type,
+                            Some(false),
+                            v,
+                            var_defs,
+                        );
                     }
                 } else {
                     unsupported_type(diagnostics, arg_value, &item_type);
@@ -305,7 +341,14 @@ pub(crate) fn value_of_correct_type(
                     }
 
                     for (_, v) in obj.iter().filter(|(obj_name, ..)| obj_name == input_name) {
-                        value_of_correct_type(diagnostics, schema, ty, v, var_defs);
+                        value_at_location_of_correct_type(
+                            diagnostics,
+                            schema,
+                            ty,
+                            Some(f.default_value.is_some()),
+                            v,
+                            var_defs,
+                        );
                     }
                 })
             }
